@@ -18,6 +18,7 @@ Actions ``A`` (lists, first element is the opcode)::
     ["detail", name, pid, [hex chunks], ctype] self.addDetail(name, Content)   ctype: "text"|"bin"|"latin"
     ["lazy", name, pid, cell]                  self.addDetail(name, Content reading cell at evaluation)
     ["setcell", cell, hex]                     change a lazy cell
+    ["cleanup_dup", cid]                       self.addCleanup(<the environment's one function>, cid)
     ["patch", attr, value]                     self.patch(scratch, attr, value)
     ["fixture", fid, spec]                     self.useFixture(...)
     ["expect", eid, ok, [[dname, hex]..]]      self.expectThat(...)  (ok=false: mismatch carrying details)
@@ -464,6 +465,16 @@ def run_actions(env, case, actions, where):
         op = a[0]
         if op in ("raise", "multi"):
             _do_raise(env, case, a)
+        elif op == "cleanup_dup":
+            # ONE function object per run environment: registering it twice with the same argument gives two equal
+            # (function, args, kwargs) entries
+            env.log("reg", a[1], where)
+            if not hasattr(env, "_dup_fn"):
+                def _dup(cid):
+                    env.log("cleanup_enter", cid)
+                    env.log("cleanup_leave", cid)
+                env._dup_fn = _dup
+            case.addCleanup(env._dup_fn, a[1])
         elif op == "cleanup":
             cid, body = a[1], a[2]
             env.log("reg", cid, where)
